@@ -629,8 +629,10 @@ v("c14-mysql-quote-identifier-lowercases", "C14", "MySQL.py",
   "        return self.identifier_quote + identifier + self.identifier_quote", "        return self.identifier_quote + identifier.lower() + self.identifier_quote")
 v("c14-jointype-unchecked", "C14", "expr_rep.py",
   "    if join_str not in allowed:\n        raise KeyError(f\"join type {join_str} not supported\")\n    return join_str", "    return join_str")
-v("c14-enc-term-alias-unquoted", "C14", SM,
-  "        if (v is None) or (v == k):\n            return self.quote_identifier(k)", "        if v is None:\n            return self.quote_identifier(k)")
+v("c14-enc-term-compares-text-with-name", "C14", SM,
+  "        if v is None:\n            return self.quote_identifier(k)", "        if (v is None) or (v == k):\n            return self.quote_identifier(k)")
+v("c14-table-def-stores-raw-name-as-term", "C14", SM,
+  "                terms[k] = None  # pass through, quoted on emission", "                terms[k] = k")
 v("c14-to-sql-replace-tabs", "C14", SM,
   "        sql_str_list = [v.rstrip() for v in sql_str_list]", "        sql_str_list = [v.rstrip().replace(\"\\t\", \" \") for v in sql_str_list]")
 v("c14-db-read-table-raw-name", "C14", "db_model.py",
@@ -751,3 +753,7 @@ v("c05-sqlite-round-two-args", "C05", "SQLite.py",
   "    \"remainder\": _sqlite_remainder_expr,\n", "    \"remainder\": _sqlite_remainder_expr,\n    \"around\": lambda dbmodel, expression: \"ROUND(\" + dbmodel.expr_to_sql(expression.args[0]) + \", \" + dbmodel.expr_to_sql(expression.args[1]) + \")\",\n")
 v("c07-pipeline-hands-arrow-back", "C07", VR,
   "            if isinstance(b, data_algebra.arrow.DataOpArrow):\n                # arrow >> pipeline: the pipeline comes after the arrow, compose as arrows\n                return data_algebra.arrow.DataOpArrow(self).act_on(b)\n", "")
+v("c03-nunique-counts-null", "C03", PM, "        \"nunique\": lambda x: x.drop_nulls().n_unique(),", "        \"nunique\": lambda x: x.n_unique(),")
+v("c03-count-native-count", "C03", PM,
+  "        \"count\": lambda x: pl.when(x.is_null() | x.is_nan())\n        .then(_build_lit(0))\n        .otherwise(_build_lit(1))\n        .sum(),",
+  "        \"count\": lambda x: x.count().cast(pl.Int64),")
